@@ -299,6 +299,9 @@ func genC04(t *rapid.T) c04Case {
 		var head string
 		if isLog {
 			head = vFmtDay(rapid.IntRange(-400, 800).Draw(t, "day"), "")
+			if rapid.IntRange(0, 14).Draw(t, "zeroday") == 0 {
+				head = vFmtDay(vZeroDay, "") // 0001/01/01
+			}
 		} else if rapid.Bool().Draw(t, "headfrompool") {
 			head = pool[rapid.IntRange(0, len(pool)-1).Draw(t, "headi")]
 		} else {
